@@ -3,6 +3,7 @@ from props.cuts import extract_lc_comparator
 
 F = "lc"
 PROP = {
+    "manifest": {'text': "PARTIAL (assignment only). One inductive step of the real Lifecycle::new / Lifecycle::update from an ARBITRARY record satisfying the representation invariant I and an ARBITRARY message (all header bits, extended header, payload <= 6 B, thorough 10 B): the solver shows every path sets msg.lifecycle to a non-zero id of a record with the message's ECU, counts are exact, I is preserved (so the step composes to histories of any length), no panic/overflow. NOT covered: exactly-once, order, queue/merge/flush logic of parse_lifecycles_buffered_from_stream - a change that drops or reorders a queued message is not detected.", 'note': "rustc front end, kani-compiler MIR->goto translation, CBMC 6.11 + cadical, Kani's allocation/slice models; stubs and textual cuts listed in the evidence; invariant I as stated in the evidence (re-asserted after the step); sw-version text decoder stubbed.", 'technique': 'bounded model checking of the real code (Kani/CBMC): inductive step lemma from an arbitrary invariant-satisfying state'},
     "inject": [(LC_OWNER, "lc.rs")],
     "cuts": [extract_lc_comparator],
     "functions": ["lifecycle::Lifecycle::new", "lifecycle::Lifecycle::update", "DltMessage::into_iter / DltMessageArgIterator::next (sw-version path)"],
